@@ -85,6 +85,7 @@ func init() {
 func (c *context) RecvMsg() (*protocol.Message, error) {
 	s := c.s
 
+	var expireQ <-chan time.Time
 	for {
 		s.Lock()
 		if c.closed {
@@ -101,7 +102,12 @@ func (c *context) RecvMsg() (*protocol.Message, error) {
 		s.Unlock()
 
 		if expTime > 0 {
-			tq = time.After(expTime)
+			if expireQ == nil {
+				// the deadline belongs to the call: armed once, not
+				// again each time the queue is replaced
+				expireQ = time.After(expTime)
+			}
+			tq = expireQ
 		}
 
 		select {
